@@ -58,3 +58,25 @@ package main
 //@   ensures len(a.Files) == old(len(a.Files)) + 1 ==> r == nil && gRegular && gUTF8 && (C_Bool[allFlag] || !(len(gName) >= 1 && at(gName, lo(gName)) == '.'))
 //@   ensures len(a.Files) == old(len(a.Files)) + 1 ==> storedOK(sid(at(a.Files, hi(a.Files)-1).Data), gArgId) && (gNQ ==> C_Bool[quoteFlag] && gQErr == nil && len(a.Comment) > old(len(a.Comment)))
 //@   ensures len(a.Files) == old(len(a.Files)) ==> sameSlice(a.Comment, old(a.Comment))
+
+// main (partial contract: only the clause below is proved): the tree is walked from the
+// cleaned form of the directory argument, so that entry names are relative to it however
+// the argument was spelled (trailing slash, ./ prefix).
+//@ ghost var gDirArg Str
+//@ extern flag.Arg(i) (r)
+//@   pure
+//@ extern flag.Parse()
+//@   pure
+//@ extern flag.NArg() (r)
+//@   pure
+//@ extern log.SetPrefix(p)
+//@   pure
+//@ extern log.SetFlags(f)
+//@   pure
+//@ func usage
+//@   trusted
+//@   noreturn
+//@ func main
+//@   partial
+//@   at call flag.Arg#1: bind gDirArg = r
+//@   at call filepath.Walk#1: requires root == cleanP(gDirArg)
